@@ -80,10 +80,14 @@ def observe(d, probes) -> str:
         mget.append(f"{k}:{'!' if v is _ABSENT else fv(v)}")
     keys = list(d.keys())
     vals = [fv(v) for v in d.values()]
+    # membership in the views (KeysView / ItemsView go through the mapping, so any spelling must work)
+    kview, iview = d.keys(), d.items()
+    kin = [f"{k}:{'T' if k in kview else 'F'}" for k in probes]
+    iin = [f"{k}:{'T' if (k, d.get(k, _ABSENT)) in iview else 'F'}" for k in probes]
     return (f"len={len(d)} iter={','.join(it) if it else '~'} get={','.join(gets)} getl={','.join(getl)} "
             f"in={','.join(mem)} lower={o_pairs(d.as_lower_dict().items())} data={o_pairs(d.as_dict().items())} "
             f"cmap={o_pairs(d.case_map().items())} mget={','.join(mget)} keys={','.join(keys) if keys else '~'} "
-            f"items={o_pairs(d.items())} values={','.join(vals) if vals else '~'}")
+            f"items={o_pairs(d.items())} values={','.join(vals) if vals else '~'} kin={','.join(kin)} iin={','.join(iin)}")
 
 
 def run_recipe(ctx: Ctx, recipe: Dict[str, Any], cid: str) -> Case:
